@@ -50,7 +50,34 @@ def run_cfg(chk, facts, cfg):
         chk.notes.extend(m.problems)
         return
     from ..overrides import obligation as no_overrides
-    no_overrides(chk, PID, facts, sfx, [m.path], 'Clone / PartialEq / Hash / conversions of Interval')
+    def check_clone_from(fnrec):
+        # an overridden Clone::clone_from must leave exactly the source in the destination, for every pair of kinds
+        from ..symex import Summarizer
+        from ..statsmodel import by_ref
+        where_ = facts.loc(fnrec['id'])
+        probs = []
+        try:
+            for kind in ('two', 'upper', 'lower'):
+                src = m.value('B', kind)
+                sx_ = Summarizer(facts)
+                ps = sx_.summarize(fnrec['id'], args=[None, by_ref(src)], arg_names=['A', 'B'])
+                chk.saw(facts, fnrec, paths=len(ps))
+                for p_ in ps:
+                    if not p_.is_ret():
+                        probs.append('panics for a %s source' % KIND_NAMES[kind])
+                    elif p_.effects.get('A') != src:
+                        probs.append('destination after clone_from of a %s source is %s' % (KIND_NAMES[kind], show_val(p_.effects.get('A'))))
+        except Unsupported as e:
+            chk.ob('%s:clone_from(override)%s' % (PID, sfx), 'effects', 'clone_from', None, 'undecided: %s' % e, where_)
+            return
+        chk.ob('%s:clone_from(override)%s' % (PID, sfx), 'effects', 'the overridden Clone::clone_from leaves exactly the source in the destination (all 9 kind pairs)',
+               not probs, '; '.join(sorted(set(probs))[:2]), where_)
+
+    def check_ne(fnrec):
+        table_check(chk, PID, facts, m, fnrec, 'ne(override)' + sfx, ['A', 'B'], [],
+                    lambda kinds, env: not (kinds[0] == kinds[1] and m.denote('A', kinds[0], env) == m.denote('B', kinds[1], env)))
+    no_overrides(chk, PID, facts, sfx, [m.path], 'Clone / PartialEq / Hash / conversions of Interval', traits=('Clone', 'PartialEq', 'Eq', 'Hash', 'From', 'Into', 'TryFrom', 'TryInto', 'Default'),
+                 checkers={('Clone', 'clone_from'): check_clone_from, ('PartialEq', 'ne'): check_ne})
     counts = {'fallible': 0, 'bodies': 3}
     TWO, UP, LO = (m.kinds[k][0] for k in ('two', 'upper', 'lower'))
 
